@@ -319,7 +319,9 @@ class Check:
         Offending cases are excised and the shard re-validated so that every violating case is reported.
         Returns list of violation dicts."""
         base = os.path.splitext(os.path.basename(trace_tla))[0]
-        max_iter = int(os.environ.get("VERIF_MAXITER", max_iter))   # 1: stop at the first violation per shard (seed re-verification)
+        # every offending case is excised and the shard validated again, so that each one is reported and matched against the
+        # known findings; VERIF_MAXITER=1 stops at the first one per shard (seed re-verification)
+        max_iter = int(os.environ.get("VERIF_MAXITER", max(max_iter, 60)))
         lib = os.path.join(SPECS, "lib") + os.pathsep + os.path.dirname(trace_tla)
         work = []
         for j in jobs:
@@ -495,7 +497,11 @@ class Check:
     def add_violations(self, viols, cases=None, describe=None):
         """match against known findings, store replay dirs"""
         kf = load_known_findings()
+        self.unvalidated = getattr(self, "unvalidated", 0)
         for v in viols:
+            if v["inv"] == "TooManyViolations":   # not a verdict: the rest of that shard was not validated
+                self.unvalidated += 1
+                continue
             v["pid"] = self.pid
             if cases is not None and 0 <= v["case"] < len(cases):
                 v["stimulus"] = cases[v["case"]]
@@ -558,6 +564,8 @@ class Check:
             json.dump(ev, f, indent=1)
         for ln in outlines:
             print(ln, flush=True)
+        if not self.violations and getattr(self, "unvalidated", 0) and not os.environ.get("VERIF_MAXITER"):
+            self.fail_machinery("%d shard(s) held more offending cases than are excised one by one: the rest of them was not validated" % self.unvalidated)
         if not self.keep_work:
             shutil.rmtree(self.work, ignore_errors=True)
         log("[%s] %s tier=%s seed=%d: %d traces, %d states, %d violation(s), %d known finding(s), %.0fs" % (
